@@ -9,7 +9,9 @@
      FRelease   the checkpoint event went through the state machine and checkpointAction.do closed
                 (or sent the error on) persistStateDone: the oldest waiting votes are released / dropped
      FCrash     process dies; restart = restore + decode + re-emit the saved actions (with the repair
-                of fixes/C02.patch: the re-executed attest persists the restored state)
+                of fixes/C02.patch: the re-executed attest persists the restored state).  The decoded
+                state is [restore s] for the encoded state s: encode/decode drop what is not
+                exported (AgreementPersist.persist); [restore := fun s => s] gives Durable.v's reading
 
    The volatile machine state is cached next to the ghost path (so that the extracted checker does
    not replay the whole path at every event); [DurableFineProofs.fine_refines] shows that every run
@@ -28,6 +30,7 @@ Section Fine.
 Variables S E V : Type.
 Variable init : S.
 Variable step : S -> E -> S * list V.
+Variable restore : S -> S.               (* decode (encode s) *)
 
 (* what a persist request carries: ghost path, the encoded state, votes of the saved attest actions *)
 Definition fsnap : Type := (list E * S * list V)%type.
@@ -71,8 +74,8 @@ Definition fstep (d : fstate) (o : fop) : fstate :=
   | FCrash =>
       match f_disk d with
       | Some (p, s, vs) =>
-          {| f_path := p; f_st := s; f_disk := f_disk d; f_queue := [((p, s, vs), vs)]; f_await := [];
-             f_released := f_released d |}
+          {| f_path := p; f_st := restore s; f_disk := f_disk d; f_queue := [((p, restore s, vs), vs)];
+             f_await := []; f_released := f_released d |}
       | None =>
           {| f_path := []; f_st := init; f_disk := None; f_queue := []; f_await := [];
              f_released := f_released d |}
